@@ -136,9 +136,14 @@ def check_one(ctx, key: str, label: str, always_single: bool):
             asg_name = pa.targets[0].id
         rets = sched.suspension_returns(P, f)
         out_names = {norm.U(r.value.elts[1]) for r, first in rets if isinstance(r.value, ast.Tuple) and len(r.value.elts) == 2 and isinstance(r.value.elts[1], ast.Name)}
+        # the object may reach the append through plain copies (`assignment = ret` after a looked-through helper)
+        names = sched.copy_closure(f, asg_name) if asg_name else set()
         apps = [a for a in calls_named(f, "append") if isinstance(a.func, ast.Attribute) and isinstance(a.func.value, ast.Name) and a.func.value.id in out_names
-                and a.args and (norm.is_name(a.args[0], asg_name) if asg_name else a.args[0] is c)]
-        okapp = len(apps) == 1 and g.path_avoiding(cid, {hid, g.exit.id}, {g.node_of(apps[0]).id}) is None
+                and a.args and ((isinstance(a.args[0], ast.Name) and a.args[0].id in names) if asg_name else a.args[0] is c)]
+        if len(names) > 1 and len(apps) == 1:
+            okapp = g.escapes(pa, {g.node_of(sched.stmt_of(apps[0])).id}, {hid, g.exit.id, cid}) is None
+        else:
+            okapp = len(apps) == 1 and g.path_avoiding(cid, {hid, g.exit.id}, {g.node_of(apps[0]).id}) is None
         ctx.ob(1, "K6", f"[{label}] every Assignment built is returned (appended once to the returned list)", okapp, f, c, construct="assignments.append(assignment)",
                detail=f"returned list(s): {sorted(out_names)}; appends: {[norm.U(a) for a in apps]}")
     # (3) FIFO queue discipline
